@@ -273,7 +273,7 @@ CHECKS = {
         ],
     ),
     "C05": dict(
-        level="model_checking",
+        level="exploration",
         rule="WfText, the character-level transcription of the parser (white space, keyword prefixes, identifier ends, literal lexers, "
              "argument classification), decides the verdict and the AST of arbitrary TEXT: MC_Text enumerates every concatenation of <= "
              "MaxAtoms atoms (keywords in both spellings, identifiers that begin with keywords, brackets, literals of every kind, space, "
@@ -287,7 +287,6 @@ CHECKS = {
              "additionally judged exactly by the L2 parser model (Trace_Lang).",
         assumptions=["inputs for arbitrary Unicode are produced by harness generators, not derived from the model",
                      "a child killed by a signal or a missing answer is recorded as a crash outcome"],
-        exhaustive=True,
         stages=[
             mc("texts-logic", "MC_Text.tla", dict(quick="MC_Text_logic3.cfg", thorough="MC_Text_logic4.cfg"), workers=6),
             mc("texts-comparisons", "MC_Text.tla", dict(quick="MC_Text_cmp3.cfg", thorough="MC_Text_cmp4.cfg"), workers=6),
